@@ -809,16 +809,16 @@ harnesses! {
     { @nostub quorum_vote_5_3, "C11", thorough, unwind = 8,
       "JointConfig::vote_result for halves of 5 and 3 voters: symbolic ids, symbolic yes/no/missing per id; won/lost/pending oracle",
       |s| c11::vote_result(s, 5, 3) }
-    { @nostub quorum_ci_5_4, "C11", thorough, unwind = 8,
+    { @nostub quorum_ci_5_4, "C11", thorough, unwind = 12,
       "JointConfig/MajorityConfig::committed_index for halves of 5 and 4 voters: symbolic distinct ids per half (overlap free), symbolic 64-bit acked indexes, some ids unknown to the indexer; group commit with symbolic groups 0..3; counting oracle",
       |s| c11::committed_index(s, 5, 4, true) }
-    { @nostub quorum_vote_5_4, "C11", thorough, unwind = 8,
+    { @nostub quorum_vote_5_4, "C11", thorough, unwind = 12,
       "JointConfig::vote_result for halves of 5 and 4 voters: symbolic ids, symbolic yes/no/missing per id; won/lost/pending oracle",
       |s| c11::vote_result(s, 5, 4) }
-    { @nostub quorum_ci_5_5, "C11", thorough, unwind = 8,
+    { @nostub quorum_ci_5_5, "C11", thorough, unwind = 12,
       "JointConfig/MajorityConfig::committed_index for halves of 5 and 5 voters: symbolic distinct ids per half (overlap free), symbolic 64-bit acked indexes, some ids unknown to the indexer; group commit with symbolic groups 0..3; counting oracle",
       |s| c11::committed_index(s, 5, 5, true) }
-    { @nostub quorum_vote_5_5, "C11", thorough, unwind = 8,
+    { @nostub quorum_vote_5_5, "C11", thorough, unwind = 12,
       "JointConfig::vote_result for halves of 5 and 5 voters: symbolic ids, symbolic yes/no/missing per id; won/lost/pending oracle",
       |s| c11::vote_result(s, 5, 5) }
     { @nostub quorum_ci_8_0_cap9, "C11", quick, unwind = 20,
